@@ -80,9 +80,15 @@ NoReq == [kind |-> "none", ur |-> 0, occ |-> 0, sp |-> 0]
 P0 == {<<>>, <<A>>}
 P1 == {<<s>> : s \in Sigma} \cup {<<A, s>> : s \in Sigma} \cup {<<s, A>> : s \in Sigma} \cup {<<A, A, s>> : s \in Sigma}
 P2 == {<<s, u>> : s \in Sigma0, u \in Sigma0}
+(* paths of up to three items over a small alphabet that mixes a real sub-folder name with "..", "../.." and "." in
+   every position (items that cancel each other followed by a climbing last item, ...) *)
+Mix == {A, DotDot, <<46,46,47,46,46>>, OneDot}
+PMix == {<<s>> : s \in Mix} \cup {<<s, u>> : s \in Mix, u \in Mix} \cup {<<s, u, v>> : s \in Mix, u \in Mix, v \in Mix}
+PMix2 == {<<s, u>> : s \in Mix, u \in Mix}
 PathsCore == P0 \cup P1
 PathsFull == PathsCore \cup P2 \cup {<<DotDot, s, A>> : s \in Sigma} \cup {<<s, DotDot, DotDot>> : s \in Sigma}
-Paths == IF Level = "core" THEN PathsCore ELSE PathsFull
+PathsMv == IF Level = "core" THEN PathsCore \cup PMix2 ELSE PathsFull \cup PMix        \* destination paths of move / alias
+Paths == (IF Level = "core" THEN PathsCore ELSE PathsFull) \cup PMix
 (* length-prefix mismatches of the encodings of <<A>> and <<A, X>> *)
 Mismatch == { <<0,2,0,0,1,97>>, <<0,3,0,0,1,97,0,0,1,120>>, <<0,1,0,0,1,97,0,0,1,120>>, <<0,1,0,0,2,97>>, <<0,2,0,0,1,97,0,0,2,120>>,
               <<0,2,0,0,1,97,0,0,0,120>>, <<0>>, <<0,1,0,0>>, <<0,1,0,0,9,46,46,47,120>> }
@@ -109,7 +115,7 @@ ReqsRename == {Rq("rename", o, IF p = <<>> THEN Absent ELSE EncPath(p), n, nn, A
               \cup {Rq("rename", 0, EncPath(p), X, New, Absent, Absent) : p \in P1}
 MvNames == IF Level = "core" THEN {X, A} ELSE {X, A, Btxt, DotDot, <<>>}
 ReqsMove == {Rq(k, o, IF p = <<>> THEN Absent ELSE EncPath(p), n, Absent, np, Absent)
-               : k \in {"move", "alias"}, o \in {0, 1}, p \in P0, n \in MvNames, np \in RawPaths(Paths)}
+               : k \in {"move", "alias"}, o \in {0, 1}, p \in P0, n \in MvNames, np \in RawPaths(PathsMv)}
             \cup {Rq(k, 0, Absent, n, Absent, EncPath(<<A>>), Absent) : k \in {"move", "alias"}, n \in Sigma}
 (* folder upload: one item header with up to three segments *)
 SegSeqs == IF Level = "core" THEN (PathsCore \ {<<>>}) \cup {<<DotDot, s>> : s \in Sigma} \cup {<<DotDot, DotDot, s>> : s \in Sigma}
